@@ -64,17 +64,17 @@ BUILT["C01"] = ("E2", "exploration", "deterministic simulation: 2-5 real Swarms 
 BUILT["C02"] = ("E2", "exploration", "deterministic simulation: invariant after every returned SwarmEvent and every Swarm::dial call against a reference count model",
   "Exact equality of the six counters, num_peers, connected_peers(), is_connected(p) and the num_established carried by events with the model, after every event of every node in every run, faults included",
   E2_NOTE, "5/C02")
-BUILT["C06"] = ("E2", "fault_enumeration", "deterministic simulation with denial faults enumerated over (composition slot x decision point), probe behaviours inside a derived composite",
+BUILT["C06"] = ("E2", "fault_enumeration", "deterministic simulation with denial faults enumerated over (composition slot x decision point), probe behaviours inside a derived composite whose fields are a plain behaviour, one behind Toggle and one behind Either",
   "All 12 (slot, point) combinations across runs with 30-90% denial rates plus background denials: denied ids are never established/counted/used, exactly one Denied failure per field and one error event, muxer closed; no Denied error without a denial",
   E2_NOTE, "5/C06")
-BUILT["C58"] = ("E2", "exploration", "deterministic simulation: every E2 run drives a #[derive(NetworkBehaviour)] composite of three probe fields; cross-field consistency oracles",
+BUILT["C58"] = ("E2", "exploration", "deterministic simulation: every E2 run drives a #[derive(NetworkBehaviour)] composite of three probe fields (plain, behind Toggle, behind Either with a drawn side); cross-field consistency oracles",
   "Identical FromSwarm sequences in all fields, handler events (Echo) return to the emitting field, denied iff some field denied, union of field addresses is what gets dialled (checked with C04)",
   E2_NOTE, "5/C58")
 BUILT["C04"] = ("E2", "exploration", "deterministic simulation: real Swarm::dial against a recording transport; target peers moved through disconnected/dialing/connected states by histories; per-dial oracle evaluated on the reference model",
   "Generated DialOpts (all PeerConditions, duplicate / own-listen / foreign-/p2p addresses, per-field behaviour address books with and without extend) in every target state; rejected dials: DialPeerConditionFalse, one DialFailure per field, no transport call, no pending connection; accepted dials: exact ordered address list handed to the transport, NoAddresses when empty",
   E2_NOTE, "5/C04")
 BUILT["C05"] = ("E2", "fault_enumeration", "deterministic simulation with identity faults enumerated: the stub transport authenticates each side of each connection as expected / other / local peer",
-  "All 9 (dialer-side x listener-side) authentication combinations x (expected peer given or not), interleaved with ordinary traffic: established only when the id matches the expectation and is not local, else WrongPeerId / LocalPeerId, and the refused muxer is closed via poll_close",
+  "All 9 (dialer-side x listener-side) authentication combinations x (expected peer none / remote / own id) x (ordinary or role-override dial), interleaved with ordinary traffic: established only when the id matches the expectation and is not local, else WrongPeerId / LocalPeerId, and the refused muxer is closed via poll_close",
   E2_NOTE, "5/C05")
 BUILT["C07"] = ("E2", "exploration", "deterministic simulation: numbered NotifyHandler::One/Any emissions from any composite field against starved connection tasks (back-pressure in both directions: echo bursts fill the handler-event channel too), racing closes and resets; history check at quiescence",
   "Targeting (connection and field), at-most-once, per-handler order, Any only to a connection established at emission (snapshot rebuilt from the event history), loss only when the target (some snapshot member for Any) was closed or commanded to close",
@@ -149,10 +149,10 @@ BUILT["C39"] = ("E3", "exploration", "deterministic simulation: the real closest
   "8..40 peers, parallelism 1..4, num_results 1..6: in-flight bounds, termination within a step budget once every request is resolved or timed out, results = responders only, sorted, bounded; fixed iterator over lists with repeated peers; on natural termination no learned closer peer uncontacted or waiting (plain iterator)",
   "the 'at most num_results' clause is judged for the plain iterator; the disjoint iterator documents that it returns the union of its paths' results (bound parallelism*num_results)", "5/C39")
 BUILT["C41"] = ("E3", "exploration", "seeded operation sequences against the real MemoryStore compared with a reference map after every operation",
-  "limits 1..4 records, 4..12 value bytes, 1..3 providers per key, 1..3 provided keys; put/get/remove/add_provider/remove_provider; provided() == local provider records",
+  "limits 1..4 records, 4..12 value bytes, 1..3 providers per key, 1..3 provided keys; put (fresh values and the stored value again with another publisher/expiry)/get (whole record compared)/remove/add_provider/remove_provider; provided() == local provider records",
   "no clock, schedule or fault in this store: operation-sequence (history) comparison only", "5/C41")
 BUILT["C42"] = ("E2", "exploration", "deterministic simulation: real kad::Behaviour (server mode, MemoryStore) in a real Swarm, scripted peers sending PUT_VALUE/GET_VALUE frames, virtual time steps leaving sub-second lifetimes; the record store is read after every request",
-  "record_ttl none or 3..60 s x sender ttl none/1..3/30/3600: stored expiry <= min of both, no expiry only if neither set; GET_VALUE answers for expiring records carry ttl > 0",
+  "record_ttl none or 3..60 s x sender ttl none/1..3/30/3600, fresh records and the already stored record sent again with another lifetime: stored expiry <= min of both, no expiry only if neither set; GET_VALUE answers for expiring records carry ttl > 0",
   E2P_NOTE, "5/C42")
 BUILT["C43"] = ("E2", "exploration", "same simulation as C42 with ADD_PROVIDER and PUT_VALUE frames carrying arbitrary provider / publisher ids",
   "a provider appears in the store only if it is the sender and not the local node; PUT_VALUE with the local node as publisher leaves the record untouched",
@@ -161,7 +161,7 @@ BUILT["C45"] = ("E2", "exploration", "deterministic simulation: 2..3 real Swarms
   "every OutboundRequestId has exactly one Response/OutboundFailure, every delivered inbound request exactly one ResponseSent/InboundFailure after all timers expired; ids unique; responses match their request",
   "both sides run the real behaviour and handler; the codec is the scripted part", "5/C45")
 BUILT["C46"] = ("E2", "exploration", "deterministic simulation: real identify::Behaviour in a real Swarm; scripted peers answer identify requests and send pushes with honest, mismatched-key, foreign-record, tampered-record and foreign-/p2p messages; every Received event is attributed to its message by a serial",
-  "reported key derives the connection's peer id; no listen address ending in a foreign /p2p; record addresses only from a valid record signed by the sender; mismatching messages never reported",
+  "reported key derives the connection's peer id; no listen address ending in a foreign /p2p; record addresses only from a valid record signed by the sender; mismatching messages never reported; attribution-independent: every reported signed record belongs to the connection's peer and contains the reported record-range addresses",
   E2P_NOTE, "5/C46")
 BUILT["C50"] = ("E2", "exploration", "deterministic simulation: real AutoNAT v1 server in a real Swarm; scripted clients send dial requests with crafted address lists; oracle over the addresses the simulated transport is asked to dial and over the probe events",
   "throttle limits 1..3 per peer / 1..4 global, periods 10..70 s; honest, spoofed, multi-IP, DNS, relay and foreign-/p2p addresses; dial-back addresses carry only the observed IP, no relay hop, end in the requester's id; one probe per peer; throttling windows",
